@@ -22,6 +22,7 @@ import (
 	"sort"
 	"strings"
 	"sync"
+	"sync/atomic"
 	"time"
 
 	"verif/tracer"
@@ -482,8 +483,17 @@ func (cn *Conn) serve() {
 				body = buf.Bytes()
 			}
 		}
+		if cn.Started && raw.Header.Version != cn.Version {
+			// as Cassandra: every frame of a connection carries the version the connection was started with
+			cn.emitIfOpen("BackendBadFrame", "b", cn.ID, "host", cn.N.IP, "bstream", int(raw.Header.StreamId), "op", raw.Header.OpCode.String(),
+				"err", fmt.Sprintf("invalid message version: got %d but previous messages on this connection had version %d", raw.Header.Version, cn.Version))
+			cn.send(raw.Header, &message.ProtocolError{ErrorMessage: "fakecql: invalid message version"}, 0, nil)
+			continue
+		}
 		frm, err := cn.codec.ConvertFromRawFrame(raw)
 		if err != nil {
+			// a frame the reference codec cannot decode with this connection's settings: on record, then answered
+			cn.emitIfOpen("BackendBadFrame", "b", cn.ID, "host", cn.N.IP, "bstream", int(raw.Header.StreamId), "op", raw.Header.OpCode.String(), "err", err.Error())
 			cn.send(raw.Header, &message.ProtocolError{ErrorMessage: "fakecql: cannot decode frame: " + err.Error()}, 0, nil)
 			continue
 		}
@@ -549,8 +559,8 @@ func (cn *Conn) handle(a *Attempt) {
 		cn.send(hdr, sup, 0, nil)
 	case *message.Startup:
 		comp := strings.ToLower(m.Options["COMPRESSION"])
-		if c.SlowStart > 0 {
-			time.Sleep(c.SlowStart)
+		if d := time.Duration(atomic.LoadInt64((*int64)(&c.SlowStart))); d > 0 {
+			time.Sleep(d)
 		}
 		cn.Version = hdr.Version
 		cn.Started = true
